@@ -5,8 +5,9 @@
 Fragment (anything else raises TranslateError => "tie broken"):
   * a function body is `return e` or `x = e; return x` (after the docstring)
   * e ::= parameter | local | numeric literal 10 / 10.0 / 1000 / 1000. |
-          e + e | e - e | e * e | e / e | pow(10, e) | np.log10(e) | _log10(e) |
+          e + e | e - e | e * e | e / e | pow(10, e) == 10 ** e == 10. ** e | np.log10(e) | _log10(e) |
           call of an already translated sibling
+    (`pow(a, b)` is the operator `a ** b`; an int base 10 is converted to the float 10.0 before a float power)
   * `_log10(value)` must be exactly `return np.log10(np.asarray(value) + 0.0)`:
     the promotion idiom `np.asarray(v) + 0.0` is the identity on real values
     (it only selects the floating point type), so `_log10 e` is emitted as
@@ -19,6 +20,7 @@ import ast
 import os
 
 from harness import translate as T
+from harness.gen import norm
 
 OPS = {ast.Add: '+', ast.Sub: '-', ast.Mult: '*', ast.Div: '/'}
 LITERALS = {10: '10', 1000: '1000'}
@@ -35,15 +37,16 @@ def expr(e, names, known):
         if float(v) != int(v) or int(v) not in LITERALS:
             raise T.TranslateError('numeric literal %r outside the fragment {10, 1000}' % (v,))
         return LITERALS[int(v)]
+    if isinstance(e, ast.BinOp) and isinstance(e.op, ast.Pow):
+        b = e.left
+        if not (isinstance(b, ast.Constant) and not isinstance(b.value, bool) and isinstance(b.value, (int, float))
+                and b.value == 10):
+            raise T.TranslateError('power with a base other than 10')
+        return '(Transc.pow10 %s)' % expr(e.right, names, known)
     if isinstance(e, ast.BinOp) and type(e.op) in OPS:
         return '(%s %s %s)' % (expr(e.left, names, known), OPS[type(e.op)], expr(e.right, names, known))
     if isinstance(e, ast.Call) and not e.keywords:
         f = e.func
-        if isinstance(f, ast.Name) and f.id == 'pow' and len(e.args) == 2:
-            b = e.args[0]
-            if not (isinstance(b, ast.Constant) and b.value == 10):
-                raise T.TranslateError('pow with a base other than 10')
-            return '(Transc.pow10 %s)' % expr(e.args[1], names, known)
         if (isinstance(f, ast.Attribute) and f.attr == 'log10' and isinstance(f.value, ast.Name)
                 and f.value.id == 'np' and len(e.args) == 1):
             return '(Transc.log10 %s)' % expr(e.args[0], names, known)
@@ -55,6 +58,7 @@ def expr(e, names, known):
 
 
 def function(fn, known):
+    fn = norm.canon_fn(fn)                      # pow(a, b) -> a ** b
     args = [a.arg for a in fn.args.args]
     if fn.args.vararg or fn.args.kwarg or fn.args.defaults:
         raise T.TranslateError('unsupported signature of ' + fn.name)
